@@ -285,21 +285,19 @@ impl CodegenContext {
         let path: IdentifierPath = "segments".into();
 
         let segments = std::mem::replace(&mut self.segments, IndexMap::new());
+        let mut result = Ok(());
         for (name, segment) in &segments {
             let path = path.join(name);
-
-            self.add_symbol(
-                path.join("start"),
-                self.symbol(None, segment.range().start as i64, SymbolType::Constant),
-            )?;
-
-            self.add_symbol(
-                path.join("end"),
-                self.symbol(None, segment.range().end as i64, SymbolType::Constant),
-            )?;
+            for (id, value) in [("start", segment.range().start), ("end", segment.range().end)] {
+                let symbol = self.symbol(None, value as i64, SymbolType::Constant);
+                if let Err(e) = self.add_symbol(path.join(id), symbol) {
+                    result = Err(e);
+                }
+            }
         }
+        // Put the segments back also when a symbol could not be registered
         self.segments = segments;
-        Ok(())
+        result
     }
 
     fn after_pass(&mut self) -> CoreResult<()> {
@@ -380,11 +378,13 @@ impl CodegenContext {
                                 && existing.data != symbol.data
                                 && existing.read_only())
                         {
-                            let span = symbol.span.expect("no span provided");
-                            return Err(Diagnostic::error()
-                                .with_message(format!("cannot redefine symbol: {}", &path))
-                                .with_labels(vec![span.to_label()])
-                                .into());
+                            // Generated symbols (e.g. 'segments.<name>.start') have no span of their own: point at the symbol they clash with
+                            let mut diag = Diagnostic::error()
+                                .with_message(format!("cannot redefine symbol: {}", &path));
+                            if let Some(span) = symbol.span.or(existing.span) {
+                                diag = diag.with_labels(vec![span.to_label()]);
+                            }
+                            return Err(diag.into());
                         }
 
                         // If the symbol already existed but with a different value,
@@ -1392,7 +1392,9 @@ pub fn codegen(
                 errors = e.with_code_map(&ctx.tree.code_map);
             }
         }
-        ctx.after_pass().expect("Could not finalize pass");
+        if let Err(e) = ctx.after_pass() {
+            errors.extend(e);
+        }
 
         // Are there no segments yet? Then create a default one.
         if ctx.segments.is_empty() {
